@@ -36,6 +36,9 @@ type rtHist struct {
 	Timeout int64    `json:"timeout_ms"`
 	Exts    int      `json:"extensions"`
 	Salt    string   `json:"salt"`
+	// SlowInitMs: every runtime takes this long before its first next (the first invocation, and the one
+	// after a crash, wait for the initialisation): the deadline must still count from the ARRIVAL
+	SlowInitMs int `json:"slow_init_ms,omitempty"`
 }
 
 func init() {
@@ -139,6 +142,18 @@ func genC01(tier string, seed int64) []Case {
 		{Mode: "response", EvSize: maxPayload - 1, EvKind: "random", RespSize: maxPayload - 1, RespKind: "allbytes"},
 		{Mode: "error", EvSize: 1, EvKind: "nul", RespSize: 1, RespKind: "nul"},
 	}, Timeout: 60000, Salt: "big/limit"})
+
+	// slow initialisation: the first invocation, and the one after a crash, wait ~900 ms before they are delivered
+	add(rtHist{Steps: []rtStep{
+		{Mode: "response", EvSize: 9, EvKind: "json", RespSize: 5, RespKind: "json"},
+		{Mode: "crash", EvSize: 3, EvKind: "json"},
+		{Mode: "response", EvSize: 11, EvKind: "json", RespSize: 7, RespKind: "json"},
+		{Mode: "response", EvSize: 12, EvKind: "json", RespSize: 8, RespKind: "json"},
+	}, Timeout: 5000, Salt: "slow-init", SlowInitMs: 900})
+	add(rtHist{Steps: []rtStep{
+		{Mode: "error", EvSize: 9, EvKind: "json", RespSize: 5, RespKind: "json"},
+		{Mode: "response", EvSize: 11, EvKind: "json", RespSize: 7, RespKind: "json"},
+	}, Timeout: 4000, Exts: 1, Salt: "slow-init-ext", SlowInitMs: 700})
 
 	n := 40
 	if tier == "thorough" {
@@ -394,6 +409,9 @@ func runRoundTrip(c *Ctx, h rtHist) {
 	w.RtPlan = func(gen int, p *vh.Proc) vh.ExecPlan {
 		return vh.ExecPlan{Behave: w.RtLoop(RtOpts{
 			BeforeFirstNext: func(p *vh.Proc, pt *vh.Party) *vh.Exit {
+				if h.SlowInitMs > 0 && !p.Sleep(time.Duration(h.SlowInitMs)*time.Millisecond) {
+					return nil
+				}
 				mu.Lock()
 				do := !initErrDone && len(h.Steps) > 0 && h.Steps[0].Mode == "initerror" && gen == 1
 				if do {
@@ -474,6 +492,9 @@ func runRoundTrip(c *Ctx, h rtHist) {
 		} else {
 			lo, hi := callEpoch+h.Timeout-50, s.RetEpoch+h.Timeout+50
 			c.Check(dl >= lo && dl <= hi, "deadline", P+"/deadline-range", fmt.Sprintf("deadline %d outside [arrival+T-50ms=%d, delivery+T+50ms=%d]", dl, lo, hi), nil)
+			// "arrival time plus the timeout": however long the invocation waited for an initialisation.
+			// One-sided slack of 400 ms for the harness goroutine that issues the call.
+			c.Check(dl <= callEpoch+h.Timeout+400, "deadline_counts_from_arrival", P+"/deadline-late", fmt.Sprintf("deadline is %d ms later than arrival + timeout (the invocation waited %d ms for delivery)", dl-callEpoch-h.Timeout, s.RetEpoch-callEpoch), nil)
 		}
 		if st.Trace != "" {
 			// the no-op tracer does not forward trace ids; only presence of other headers is asserted
